@@ -618,8 +618,10 @@ def _entity_table(repo, rep, er, sub):
             roles[gid] = "body"
     by_role = {v: k for k, v in roles.items()}
     if set(by_role) != {"hash", "marker", "body"} or n_groups != 3:
-        raise AnalysisError("entity_re: group roles not understood: %s"
-                            % roles)
+        rep.check(False, "R06.3", "chameleon.utils.entity_re", "the entity "
+                  "pattern has three groups: '#', the x/X marker, the body",
+                  construct="entity-groups", detail=str(roles))
+        return
     mname = sub.node.args.args[0].arg
 
     def group_of(e):
